@@ -19,6 +19,7 @@ FIXED = [
  ("C02", "logging-phase rule must not replace", "a phase-5 rule with deny/drop/redirect overwrote the interruption recorded by the rule that blocked the request (deny in phase 1, deny in phase 5 on the same request: Interruption() reported the phase-5 rule)"),
  ("C02", "body-limit rejection honours DetectionOnly", "ctl:ruleEngine=DetectionOnly in phase 1 + Sec{Request,Response}BodyLimitAction Reject + body over the limit: the write call returned a real 413/500 interruption and IsInterrupted() was true in DetectionOnly"),
  ("C06", "must not append into the shared rule", "data race (default build): doEvaluate appended per-transaction ctl:ruleRemoveTarget* exceptions into the backing array of the shared rule's Exceptions slice (rule with three configured !ARGS:x exclusions + ctl:ruleRemoveTargetById on two concurrent transactions)"),
+ ("C13", "pattern cache keys carry their role", "cache keys without role or content: SecAction ctl:ruleRemoveTargetById=51;ARGS:/a.c/ built after a WAF with @pm a.c panics in NewWAF (AhoCorasick is not *regexp.Regexp); @pmFromDataset keyed by data set name and @pmFromFile by path made two WAFs with different contents under one name share the first matcher"),
 ]
 OPEN = [
  {"property": "C06", "status": "open",
